@@ -51,6 +51,7 @@ type Case struct {
 	// bubble-only knobs (goroutine-backed combinators)
 	SrcGapMs int    `json:"srcgap,omitempty"`
 	EndGapMs int    `json:"endgap,omitempty"`
+	CloseMs  int    `json:"closems,omitempty"` // how long every source's Close takes (bubble only)
 	PaceMs   int    `json:"pace,omitempty"`
 	Latency  string `json:"latency,omitempty"` // MapStream: "", "desc", "head"
 	Par      int    `json:"par,omitempty"`
@@ -190,6 +191,7 @@ func (e *Env) mainSource() *sk.RecStream[int] {
 	r := sk.NewRecStream("src", e.c.Input)
 	r.Gaps = gaps(len(e.c.Input), e.srcGap)
 	r.EndGap = e.srcGap + time.Duration(e.c.EndGapMs)*time.Millisecond
+	r.CloseDelay = time.Duration(e.c.CloseMs) * time.Millisecond
 	script(e, r, e.c.Fault.P, e.c.Fault.P2)
 	addSource(e, r, nil)
 	e.recs = append(e.recs, r)
